@@ -11,7 +11,7 @@
                     since the repair of F21/F24). *)
 From Coq Require Import List ZArith NArith Bool.
 From TF Require Import Base Query Index DB Spec proofs.QueryP proofs.IndexDefs proofs.ScanP proofs.IndexP
-     proofs.RepP proofs.DBReadP proofs.SelectP proofs.TimeP QueryObj proofs.GuardGenP.
+     proofs.RepP proofs.DBReadP proofs.SelectP proofs.TimeP QueryObj proofs.GuardGenP proofs.LawsP proofs.DBStepP.
 From TF Require gen.GuardGen.
 Import ListNotations.
 
@@ -31,6 +31,12 @@ Proof. exact (fun E => db_get_spec E Rep_build). Qed.
 Theorem C01_select_exact : forall E s ks q m, Inv s -> wf_query E q -> index_safe q ->
   db_select E s (Some ks) q m = (read_prelude s, OSel (spec_select E ks q m (st_rows s))).
 Proof. exact db_select_spec. Qed.
+(* an insert shows: len grows by the number of points and every later search answers the old answer followed by the matching new points *)
+Theorem C01_insert_shows : forall E norm s ps m q mf, Inv s -> wf_insert norm ps m -> all_points ps = true ->
+  let s' := fst (db_insert norm s ps m) in
+  length (st_rows s') = length (st_rows s) + length ps /\
+  spec_search E q mf false (st_rows s') = spec_search E q mf false (st_rows s) ++ spec_search E q mf false (map (rename m) (prefix_points ps)).
+Proof. exact insert_shows. Qed.
 (* the key strings of select: "time", "measurement", "tags.<key>", "fields.<key>" (non-empty key) are accepted and mean that attribute;
    everything else is rejected (the model parses the strings the caller hands in) *)
 Theorem C01_select_keys_parse : forall ks, Forall selkey_ok ks -> parse_selkeys (map print_selkey ks) = Some ks.
@@ -72,6 +78,7 @@ Print Assumptions C01_count_exact.
 Print Assumptions C01_contains_exact.
 Print Assumptions C01_get_exact.
 Print Assumptions C01_select_exact.
+Print Assumptions C01_insert_shows.
 Print Assumptions C01_select_keys_parse.
 Print Assumptions C01_select_key_sound.
 Print Assumptions C01_dsl_is_index_safe.
